@@ -57,7 +57,7 @@ def libType (t : GoType) : Bool :=
   | _ => false
 
 /-- `typ.Key().Kind() == reflect.String` -/
-def isStringKind (t : GoType) : Bool :=
+def isStringKey (t : GoType) : Bool :=
   match t.strip with
   | .string => true
   | _ => false
@@ -95,7 +95,7 @@ def hasTy : GoType → GoVal → Bool
     | _ => false
   | .map k e, v =>
     match v with
-    | .map _ ks vs => (isStringKind k || ks.isEmpty) && ks.length == vs.length && vs.all (hasTy e)
+    | .map _ ks vs => (isStringKey k || ks.isEmpty) && ks.length == vs.length && vs.all (hasTy e)
     | _ => false
   | .ptr e, v =>
     match v with
@@ -136,7 +136,7 @@ def wt : Codec → GoType → Bool
   | .string _, t => match t.strip with | .string => true | _ => false
   | .fixed n, t => match t.strip with | .array m e => isU8 e && (m : Int) == n | _ => false
   | .array item _, t => match t.strip with | .slice e => !isU8 e && wt item e | _ => false
-  | .map val _, t => match t.strip with | .map k e => isStringKind k && wt val e | _ => false
+  | .map val _, t => match t.strip with | .map k e => isStringKey k && wt val e | _ => false
   | .pointer c, t => match t.strip with | .ptr e => wt c e | _ => false
   | .record zero cs ts, t =>
     match t.strip with
